@@ -64,7 +64,7 @@ def run(F, R, tier):
         okd = bool(tab.ok())
         for q in tab.ok():
             ps_ = q.calls(r"CoreDID::parse$")
-            pname = (F.hir(fn)["params"][0].get("name") if F.hir(fn)["params"] else None) or "_0"
+            pname = sym.param_name(F, fn, 0)
             if not r1.require(len(ps_) == 1 and SR.pure(q.ret, ps_[0].result.t) and SR.pure(ps_[0].args[0], SR.param(pname), conv=VERB), (fn, "delegates-parse"), "%s does not delegate to CoreDID::parse with its input verbatim" % L.short(fn)):
                 okd = False
         r1.site("%s → CoreDID::parse(input): %s" % (L.short(fn), okd))
